@@ -17,6 +17,7 @@ package main
 
 import (
 	"bufio"
+	"bytes"
 	"encoding/binary"
 	"fmt"
 	avronull "github.com/philpearl/avro/null"
@@ -556,10 +557,52 @@ func c20Scenario(name string) sx {
 		if n := encode(); n != 1 {
 			return T("violated", hs(fmt.Sprintf("after registering the time codecs the user's null.Int codec wrote %d of 1 values", n)))
 		}
+	case "same-named-unregistered":
+		// "... and nothing else": a codec and a schema registered for one type called ID must not govern ANOTHER type that is
+		// also called ID (two function-local types; reflect's String() is the same for both)
+		regT, otherT := c20LocalIDa(), c20LocalIDb()
+		if regT == otherT || regT.String() != otherT.String() {
+			return T("violated", hs("harness: the two local types are not distinct types with one name"))
+		}
+		used := 0
+		avro.RegisterSchema(regT, sPrim("long"))
+		avro.Register(regT, func(s avro.Schema, typ reflect.Type, omit bool) (avro.Codec, error) {
+			used++
+			return nil, fmt.Errorf("the custom builder of the registered type was called for %v", typ)
+		})
+		st := reflect.StructOf([]reflect.StructField{{Name: "X", Type: otherT, Tag: `json:"x"`}})
+		sch, err := avro.SchemaForType(reflect.New(st).Elem().Interface())
+		if err != nil {
+			return T("violated", hs("schema of a struct holding the unregistered type: "+err.Error()))
+		}
+		if len(sch.Object.Fields) != 1 || sch.Object.Fields[0].Type.Type != "string" {
+			return T("violated", hs("the unregistered type called ID got the schema "+schemaSx(sch.Object.Fields[0].Type).String()+" (the registered ID's is long; its own is string)"))
+		}
+		c, err := sch.Codec(reflect.New(st).Elem().Interface())
+		if err != nil || used != 0 {
+			return T("violated", hs(fmt.Sprintf("building a codec for the unregistered type called ID: err=%v, registered builder called %d times", err, used)))
+		}
+		v := reflect.New(st)
+		v.Elem().Field(0).SetString("abc")
+		w := avro.NewWriteBuf(nil)
+		c.Write(w, v.UnsafePointer())
+		if !bytes.Equal(w.Bytes(), []byte{6, 'a', 'b', 'c'}) {
+			return T("violated", hs(fmt.Sprintf("the unregistered type called ID was written as %x", w.Bytes())))
+		}
 	default:
 		panic("harness: unknown c20x scenario " + name)
 	}
 	return T("ok")
+}
+
+func c20LocalIDa() reflect.Type {
+	type ID string
+	return reflect.TypeFor[ID]()
+}
+
+func c20LocalIDb() reflect.Type {
+	type ID string
+	return reflect.TypeFor[ID]()
 }
 
 func applyRegs(regs sx) {
@@ -1334,6 +1377,7 @@ func genC20(c *ctx) {
 	}
 	c.emit(T("c20x", A("user-time-then-null-package")))
 	c.emit(T("c20x", A("user-nullint-then-time-package")))
+	c.emit(T("c20x", A("same-named-unregistered")))
 	// two registered types side by side, and the same registered type twice, in random positions
 	n := c.scale(300, 3000)
 	for i := 0; i < n; i++ {
